@@ -370,7 +370,7 @@ class Run:
                                 R.bev("Probe")
                                 r2 = p(iter(()))
                                 R.ev(ev="Overlap")
-                                for _ in r2: pass
+                                for x in r2: R.ev(ev="OverlapYield", c=x[0], i=x[1])
                                 R.bev("ProbeEnd", ok=True)
                             except RuntimeError:
                                 R.ev(ev="Rejected"); R.bev("ProbeEnd", ok=False)
@@ -385,7 +385,7 @@ class Run:
                                 R.bev("Probe")
                                 r2 = p(iter(()))
                                 R.ev(ev="Overlap")
-                                for _ in r2: pass
+                                for x in r2: R.ev(ev="OverlapYield", c=x[0], i=x[1])
                                 R.bev("ProbeEnd", ok=True)
                             except RuntimeError:
                                 R.ev(ev="Rejected"); R.bev("ProbeEnd", ok=False)
